@@ -1,25 +1,65 @@
 ---------------------------- MODULE Layers ----------------------------
-(* environment precedence (C09): intended Resolve vs. the chain of merges in the code *)
+(* C09 / C10 (precedence): the intended resolution "the highest defining level wins"    *)
+(* against the exact chain of Merge / With calls the code performs.                     *)
+(* Environment levels: 1 parent process, 2 context env, 3 env_file, 4 task env,         *)
+(*                     5 stage env, 6 variation.                                         *)
+(*   internal/config/task.go:   FromMap(env_file).Merge(task env)                        *)
+(*   pkg/scheduler/stage.go:    task env .Merge(stage env)          (stage mode only)    *)
+(*   pkg/runner/runner.go:      runner env .Merge(context env) .With(TASK_NAME) .Merge(task env) *)
+(*   pkg/runner/compiler.go:    env .Merge(variation)                                    *)
+(*   pkg/executor/executor.go:  parent environment minus the job's names, plus the job env *)
+(* Variable levels: 1 configuration, 2 --set, 3 task, 4 stage.                           *)
+(*   internal/config/config.go merge, cmd/taskctl (--set), runner.go vars, stage.go      *)
+(* Dir levels: stage, task (rendered), context, start directory.                        *)
+(* Negative controls: PinnedEnv (duplicates resolved by sorting NAME=value),             *)
+(* PinnedVars (configuration variables dropped; stage variables replace task variables). *)
 EXTENDS Naturals, Sequences, FiniteSets, TLC
-CONSTANT FixedDedup
-Levels == 1..6   \* 1 parent, 2 context, 3 env_file, 4 task env, 5 stage env, 6 variation
-VARIABLES defs, val, mode
-vars == <<defs, val, mode>>
-\* values are numbers so that "sorts above/below" is meaningful; two orders: ascending / descending with the level
-Init == /\ defs \in (SUBSET Levels) \ {{}}
-        /\ val \in {[l \in Levels |-> l], [l \in Levels |-> 7 - l]}
-        /\ mode \in {"direct", "stage"}
-Next == UNCHANGED vars
-Eff == IF mode = "direct" THEN defs \ {5} ELSE defs
+CONSTANTS PinnedEnv, PinnedVars
+VARIABLES kind, defs, ord, mode
+vars == <<kind, defs, ord, mode>>
+No == 0
+Over(a, b) == IF b # No THEN b ELSE a            \* variables.Merge for one name: the argument wins
 Max(S) == CHOOSE x \in S : \A y \in S : y <= x
-Resolve == IF Eff = {} THEN 0 ELSE val[Max(Eff)]
-\* code: runner env < ctx env < task env(+env_file under it, +stage over it) < variation are merged into ONE map
-\* (variables.Merge: argument wins), then appended to os.Environ() and de-duplicated by expand.ListEnviron
-JobEnvLevels == Eff \ {1}
-JobEnv == IF JobEnvLevels = {} THEN 0 ELSE val[Max(JobEnvLevels)]     \* pairwise Merge chain = highest level wins
-Candidates == (IF 1 \in Eff THEN {val[1]} ELSE {}) \cup (IF JobEnv # 0 THEN {JobEnv} ELSE {})
-DedupPinned == IF Candidates = {} THEN 0 ELSE Max(Candidates)           \* sort "NAME=value", keep the last of equal names
-DedupFixed  == IF JobEnv # 0 THEN JobEnv ELSE IF 1 \in Eff THEN val[1] ELSE 0
-Impl == IF FixedDedup THEN DedupFixed ELSE DedupPinned
+
+Init == /\ kind \in {"env", "var", "dir"}
+        /\ mode \in {"direct", "stage"}
+        /\ ord \in {"asc", "desc"}
+        /\ defs \in CASE kind = "env" -> (SUBSET (1..6)) \ {{}}
+                      [] kind = "var" -> (SUBSET (1..4)) \ {{}}
+                      [] OTHER -> SUBSET (1..3)            \* dir: 1 context, 2 task, 3 stage
+Next == UNCHANGED vars
+
+Top == CASE kind = "env" -> 6 [] kind = "var" -> 4 [] OTHER -> 3
+StageLevel == CASE kind = "env" -> 5 [] kind = "var" -> 4 [] OTHER -> 3
+\* a stage-level definition exists only when the task runs as a stage
+Eff == IF mode = "direct" THEN defs \ {StageLevel} ELSE defs
+\* the value given at level l: ascending or descending with the level, so that a higher level's
+\* value sorts both above and below a lower level's
+Val(l) == IF ord = "asc" THEN l ELSE Top + 1 - l
+Def(l) == IF l \in Eff THEN Val(l) ELSE No
+
+\* intended
+Resolve == IF Eff = {} THEN No ELSE Val(Max(Eff))
+
+\* --- environment, as the code computes it ---
+TaskEnv == Over(Def(3), Def(4))
+StageTaskEnv == IF mode = "stage" THEN Over(TaskEnv, Def(5)) ELSE TaskEnv
+JobEnv == Over(Over(Def(2), StageTaskEnv), Def(6))
+ImplEnv == IF PinnedEnv
+             THEN (IF Def(1) = No THEN JobEnv ELSE IF JobEnv = No THEN Def(1)
+                   ELSE IF Def(1) > JobEnv THEN Def(1) ELSE JobEnv)      \* sort NAME=value, keep the last
+             ELSE Over(Def(1), JobEnv)
+\* --- template variables ---
+CfgVars == IF PinnedVars THEN No ELSE Def(1)
+RunnerVars == Over(CfgVars, Def(2))
+TaskVars == IF mode = "stage" /\ Def(4) # No
+              THEN (IF PinnedVars THEN Def(4) ELSE Over(Def(3), Def(4)))     \* pinned: t.Env.Merge(stage.Variables)
+              ELSE Def(3)
+ImplVar == Over(RunnerVars, TaskVars)
+\* --- working directory (0 = the directory taskctl was started in) ---
+StageTaskDir == IF mode = "stage" /\ Def(3) # No THEN Def(3) ELSE Def(2)
+ImplDir == IF StageTaskDir # No THEN StageTaskDir ELSE Def(1)
+
+Impl == CASE kind = "env" -> ImplEnv [] kind = "var" -> ImplVar [] OTHER -> ImplDir
 ImplEqualsResolve == Impl = Resolve
 =======================================================================
